@@ -927,7 +927,7 @@ struct Lower
         // roots: every function defined in namespace RootNs
         for(auto* D : C.getTranslationUnitDecl()->decls())
             if(auto* NS = dyn_cast<NamespaceDecl>(D); NS && NS->getName() == RootNs.getValue())
-                for(auto* X : NS->decls()) if(auto* F = dyn_cast<FunctionDecl>(X); F && F->hasBody()) { roots.push_back(F); need(F); }
+                for(auto* X : NS->decls()) if(auto* F = dyn_cast<FunctionDecl>(X); F && F->hasBody() && F->getIdentifier() && F->getName().startswith("r_")) { roots.push_back(F); need(F); }
         size_t n = 0;
         while(!work.empty()) { auto* F = work.front(); work.pop_front(); function(F); n++; }
         std::error_code EC; llvm::raw_fd_ostream out(OutFile.getValue(), EC);
